@@ -1120,3 +1120,52 @@ Proof.
   - apply Inv_run_from. exact I.
   - fold w1 in M. lia.
 Qed.
+
+(* ------------------------------------------------------------------------------------------ *)
+(* dcrecv monitor                                                                               *)
+(* ------------------------------------------------------------------------------------------ *)
+
+(* the (expected_duplicate, code) pairs in front of the -1 marker *)
+Inductive recv_pairs : list Z -> list (Z * Z) -> list Z -> Prop :=
+| rp_end : forall t, recv_pairs ((-1)%Z :: t) [] t
+| rp_cons : forall d code l ps t, d <> (-1)%Z -> recv_pairs l ps t -> recv_pairs (d :: code :: l) ((d, code) :: ps) t.
+
+Lemma recv_pairs_ok_sound : forall n l t, length l <= n -> recv_pairs_ok l = Some t ->
+  exists ps, recv_pairs l ps t /\
+    Forall (fun p => (fst p = 1%Z -> snd p = 1%Z) /\ (fst p <> 1%Z -> fst p = 0%Z /\ snd p <> 1%Z)) ps.
+Proof.
+  induction n; intros l t Hl H.
+  - destruct l; [discriminate | simpl in Hl; lia].
+  - destruct l as [|d l]; [discriminate|]. simpl in H.
+    destruct (Z.eqb_spec d (-1)).
+    + injection H as <-. subst. exists []. split; constructor.
+    + destruct l as [|code l']; [discriminate|].
+      match type of H with (if ?c then _ else _) = _ => destruct c eqn:Cnd end; [|discriminate].
+      destruct (IHn l' t) as [ps [A B]]; [simpl in Hl; lia | exact H |].
+      exists ((d, code) :: ps). split; [constructor; auto|]. constructor; auto. simpl.
+      destruct (Z.eqb_spec d 1).
+      * apply Z.eqb_eq in Cnd. split; [auto | contradiction].
+      * apply andb_prop in Cnd. destruct Cnd as [C1 C2]. apply Z.eqb_eq in C1.
+        split; [contradiction|]. intros _. split; auto.
+        apply orb_prop in C2. destruct C2 as [C2|C2]; apply Z.eqb_eq in C2; lia.
+Qed.
+
+Record recv_meaning (out : list Z) : Prop := mkRM {
+  rm_shape : exists ops ps rd acked eofz total,
+      recv_pairs (tl out) ps [rd; 1%Z; 0%Z; 1%Z; acked; 1%Z; eofz; total] /\ out = ops :: tl out /\
+      (* every replayed (space, packet number) was refused as Duplicate and no fresh one was *)
+      Forall (fun p => (fst p = 1%Z -> snd p = 1%Z) /\ (fst p <> 1%Z -> fst p = 0%Z /\ snd p <> 1%Z)) ps /\
+      (* correct = 1, duplicates changed nothing, ACK ranges within the accepted numbers, MAX_DATA monotone *)
+      (0 <= rd <= total)%Z /\ (eofz = 1%Z -> rd = total)
+}.
+
+Theorem dcrecv_judge_sound : forall case out, dcrecv_judge case out = true -> recv_meaning out.
+Proof.
+  intros case out H. unfold dcrecv_judge in H. destruct out as [|ops rest]; [discriminate|].
+  destruct (recv_pairs_ok rest) as [t|] eqn:E; [|discriminate].
+  destruct t as [|rd [|correct [|dupchg [|subset [|acked [|mono [|eofz [|total [|? ?]]]]]]]]]; try discriminate.
+  split_andb. conv_cmp. subst.
+  destruct (recv_pairs_ok_sound (length rest) rest _ (le_n _) E) as [ps [A B]].
+  constructor. exists ops, ps, rd, acked, eofz, total. simpl. repeat split; auto; try lia.
+  intros Ee. rewrite Ee in *. simpl in *. conv_cmp. assumption.
+Qed.
